@@ -1,5 +1,5 @@
 """C20 -- collections stay aligned and own their droplets under any sequence of edits."""
-from contracts import collections as co, emulsions as em, tracks as tk
+from contracts import collections as co, collmodel, emulsions as em, tracks as tk
 from pyvc.bounded import Bounded, ContractSampling
 
 LEVEL = "other"
@@ -18,6 +18,6 @@ CONTRACTS = [c.ident for c in (co.DropletCopy(), co.EmulsionAppend(), co.Emulsio
                                co.TrackDuration(), co.ETCAppend(), co.ETCClear(), co.EmulsionInterfaceWidth(),
                                em.RemoveOverlapping(), em.RemoveOverlappingIdempotent(), tk.TrackInit())]
 LEMMAS = []
-BOUNDED = [ContractSampling("collection-contracts-on-real-objects", CONTRACTS,
+BOUNDED = [collmodel.CollectionModel(), ContractSampling("collection-contracts-on-real-objects", CONTRACTS,
                             "each operation contract on 8 (quick) / 80 (thorough) seeded collections of 0-5 droplets incl. time 0, width 0/None, "
                             "radius equal to the threshold, aliasing of argument and member")]
